@@ -263,13 +263,32 @@ def r04_4(ctx):
                 if f.can_reach(h[0], c[0]) and c[0] != h[0]:
                     ok_last = False
         r.ob("flush:held-back-tail-last", ok_last, f.site, "last_buffer is appended after all buffered elements")
-        # the chain is walked newest-first (current -> previous); it must be emitted reversed
-        walks_prev = any(mentions_field(pv.rvalue(st["r"]), "previous", "filter::html_filter_body::BufferLink") for bi, si, st in f.assigns())
-        reversed_ = any(cal and cal.name == "rev" for bi, t, cal in f.calls())
-        collected = any(cal and cal.name == "push" and cal.adt == "std::vec::Vec" and mentions_field(pv.operand(t["args"][1]), "buffer", "filter::html_filter_body::BufferLink") for bi, t, cal in f.calls())
-        direct = any(mentions_field(a[2], "buffer", "filter::html_filter_body::BufferLink") for a in appends if a[1] == ("local", 0) or True) and not collected
-        r.ob("flush:buffers-oldest-first", walks_prev and ((collected and reversed_) or not direct) and (collected and reversed_), f.site,
-             "the buffer chain is walked current -> previous (newest first) and %s" % ("emitted in reverse (oldest first)" if (collected and reversed_) else "emitted in walk order: inner (newer) content precedes outer (older) content"))
+        # the chain is walked newest-first (current -> previous); it must be emitted reversed.
+        # Read from the body and its closures (a `successors(..).map(..).collect()` chain is the same walk).
+        BL = "filter::html_filter_body::BufferLink"
+        bodies = f.all_bodies()
+        walks_prev = False
+        reads_buffer = False
+        for b_ in bodies:
+            pb = Prov(b_, copies=True)
+            for bi, si, st in b_.assigns():
+                rv = pb.rvalue(st["r"])
+                if mentions_field(rv, "previous", BL):
+                    walks_prev = True
+                if mentions_field(rv, "buffer", BL):
+                    reads_buffer = True
+            for bi, t_, cal in b_.calls():
+                for a_ in t_["args"]:
+                    e_ = pb.operand(a_)
+                    if mentions_field(e_, "previous", BL):
+                        walks_prev = True
+                    if mentions_field(e_, "buffer", BL):
+                        reads_buffer = True
+        n_rev = sum(1 for bi, t_, cal in f.calls() if cal and cal.name in ("rev", "reverse"))
+        collected = any(cal and ((cal.name == "push" and cal.adt == "std::vec::Vec") or cal.name == "collect") for bi, t_, cal in f.calls())
+        ok_order = walks_prev and reads_buffer and collected and n_rev % 2 == 1
+        r.ob("flush:buffers-oldest-first", ok_order, f.site,
+             "the buffer chain is walked current -> previous (newest first) and %s" % ("emitted in reverse (oldest first)" if ok_order else "not emitted in reverse: inner (newer) content precedes outer (older) content (walk=%s collected=%s reversals=%d)" % (walks_prev, collected, n_rev)))
     ctx.run_rule("R04.4", "flush order at end of stream", body, floor=3)
 
 
